@@ -104,7 +104,16 @@ pub fn library_verdict(text: &str, upto: u8) -> Result<bool, (String, String)> {
                 Ok(false)
             }
         }
-        Front::Ok { .. } => Ok(true),
+        Front::Ok { elab, ty, .. } => {
+            if upto >= 3 {
+                // `gram check` prints the elaborated term and its type: rendering them is a stage too
+                // (a hole solved by a term that contains it makes the printer recurse for ever)
+                if let Err(m) = bind::guard(|| (elab.to_string().len(), ty.to_string().len())) {
+                    return Err(("display-panic".into(), format!("panic while printing the result: {m}")));
+                }
+            }
+            Ok(true)
+        }
     })
 }
 
@@ -223,6 +232,67 @@ fn computed_kind_sweep() -> Sweep {
             count!("computed_kind_programs");
             match library_verdict(&fam[idx as usize], 3) {
                 Ok(_) => count!("nontrivial"),
+                Err((sub, what)) => violation(&sub, &fam[idx as usize], "Ok(..) or Err(non-empty errors), no panic", &what),
+            }
+        },
+        move |idx| f2[idx as usize].clone(),
+    )
+}
+
+// Definitions that contain holes, used by name: `t = H` for every type H over { _, int, t-free arrows }
+// with at least one `_`, (optionally an alias `u = t` before or after it), and bodies in which binders
+// annotated with the name are applied to each other, to themselves and to functions over the name — so
+// that holes are solved with terms that mention the definition which contains them. The late-hole and
+// value-boundary families (parameters and definitions without annotations) go through the same stages.
+// Oracle of C14: every stage returns, printing the result included; none of these programs computes.
+fn holed_definition_sweep() -> Sweep {
+    let holes = ["_", "_ -> int", "int -> _", "_ -> _", "(_ -> int) -> int", "(x : _) -> _", "int -> int"];
+    let groups = ["t = @", "t = @; u = t", "u = t; t = @", "t : type = @", "a = int; t = @"];
+    let bodies = [
+        "(w : t) => w w",
+        "(w : t) => w 1",
+        "(w : t) => (v : t) => w v",
+        "(f : t -> int) => (w : t) => w f",
+        "(f : t -> int) => (w : t) => f w",
+        "(w : u) => w w",
+        "(w : t) => (v : u) => v w",
+        "(w : t) => (k : t -> t) => k w (k w)",
+        "(w : t) => if true then w else w w",
+        "(w : t) => (z : t = w w; z)",
+        "(x : t) => x",
+        "w : t = (x => x); w w",
+    ];
+    let mut fam: Vec<String> = vec![];
+    for g in groups {
+        for h in holes {
+            for b in bodies {
+                if b.contains('u') && !g.contains("u =") {
+                    continue;
+                }
+                fam.push(format!("{}; {b}", g.replace('@', h)));
+                fam.push(format!("{}\n{b}", g.replace('@', h).replace("; ", "\n")));
+            }
+        }
+    }
+    fam.extend(crate::props::sem::late_hole_family());
+    fam.extend(crate::props::sem::value_boundary_family(2));
+    let fam = Rc::new(fam);
+    let f2 = fam.clone();
+    Sweep::new(
+        "definitions that contain holes and are used by name; parameters and definitions without annotations",
+        fam.len() as u64,
+        move |idx| {
+            count!("evaluations");
+            count!("holed_definition_programs");
+            match library_verdict(&fam[idx as usize], 3) {
+                Ok(true) => {
+                    count!("lib_accepted");
+                    count!("nontrivial");
+                }
+                Ok(false) => {
+                    count!("lib_rejected");
+                    count!("nontrivial");
+                }
                 Err((sub, what)) => violation(&sub, &fam[idx as usize], "Ok(..) or Err(non-empty errors), no panic", &what),
             }
         },
@@ -710,6 +780,7 @@ impl Prop for C14 {
         v.push(diagnosed_operand_sweep());
         v.push(type_level_arithmetic_sweep());
         v.push(computed_kind_sweep());
+        v.push(holed_definition_sweep());
         v.push(cli_sweep(tier));
         v
     }
